@@ -6,6 +6,7 @@ use scale_info::TypeInfo;
 use serde_json::{json, Value};
 use std::io::{BufRead, Write};
 
+mod builders;
 mod laws;
 mod meta;
 mod ops;
